@@ -51,6 +51,11 @@ package withstack
 //@ spec func olsFn(e error) string
 //@ spec func olsOk(e error) bool
 
+//@ spec func pkFile(st errbase.StackTrace) string
+//@ spec func pkLine(st errbase.StackTrace) int
+//@ spec func pkFn(st errbase.StackTrace) string
+//@ spec func pkOk(st errbase.StackTrace) bool
+
 // the results are named (assumed: deterministic functions of the error); what is verified is the
 // innermost-first rule: whenever the direct cause (Cause() or Unwrap(), as errbase.UnwrapOnce sees
 // it) has a source, that source is the answer
@@ -59,6 +64,8 @@ package withstack
 //@   requires err != nil
 //@   assumes file == olsFile(err) && line == olsLine(err) && fn == olsFn(err) && ok == olsOk(err)
 //@   ensures cause1(err) != nil && olsOk(cause1(err)) ==> file == olsFile(cause1(err)) && line == olsLine(cause1(err)) && fn == olsFn(cause1(err)) && ok
+// ... otherwise any layer that offers a pkg/errors-style StackTrace() - whatever its type - answers with it
+//@   ensures !(cause1(err) != nil && olsOk(cause1(err))) && typeis(err, errbase.StackTraceProvider) ==> file == pkFile(StackTraceM(err)) && line == pkLine(StackTraceM(err)) && fn == pkFn(StackTraceM(err)) && ok == pkOk(StackTraceM(err))
 
 //@ func GetReportableStackTrace
 //@   props C15
@@ -87,7 +94,8 @@ package withstack
 //@   ensures file == psFile(st) && line == psLine(st) && fn == psFn(st) && ok == psOk(st)
 
 //@ func getOneLineSourceFromPkgStack
-//@   props C11 C15
+//@   props C11 C15 C16
+//@   assumes file == pkFile(st) && line == pkLine(st) && fn == pkFn(st) && ok == pkOk(st)
 //@   ensures len(st) == 0 ==> !ok
 //@   ensures len(st) > 0 ==> (exists s string :: file == psFile(s) && line == psLine(s) && fn == psFn(s) && ok == psOk(s))
 
